@@ -11,7 +11,7 @@
    PARTIAL: isotherm uploads WITH auto-insert of the material / adsorbate read the per-process registries (refuted items below; their
    steps are judged inside Coq at run time, Db/DbShow.v spec_verdict); the isotherm PROPERTY types have no table at all (refuted item). *)
 From Coq Require Import ZArith List Bool.
-From PG Require Import Db.DbModel Db.DbSpec Db.DbRefine Db.DbInv Db.DbRefine2 Db.DbRefine3 Db.DbRefine4 Db.DbBatch.
+From PG Require Import Db.DbModel Db.DbSpec Db.DbRefine Db.DbInv Db.DbRefine2 Db.DbRefine3 Db.DbRefine4 Db.DbBatch Db.DbAtomic Db.DbPy Db.DbConn Db.DbPyProofs.
 Import ListNotations.
 Open Scope Z_scope.
 
@@ -223,3 +223,59 @@ Example store_larger_than_the_batch :
   /\ map o_props (retrieve (mkC None None None None) b_db)
      = [[(A_iso_type, VText A_base)]; [(A_iso_type, VText A_base); (40, VNum 5)]; [(A_iso_type, VText A_base)]].
 Proof. exact batches_of_two_example. Qed.
+
+(* ---- operations refused PART-WAY by Python-level code (Db/DbPy.v: a value sqlite3 cannot bind - dict, nested list, object, integer beyond
+   64 bits, text with a lone surrogate -, an extra data column whose element type has no SQL name, an argument that is no isotherm), i.e.
+   by exceptions with_connection has no handler for, raised after the first rows of the call were written.  pyop = the operations as Python
+   hands them over; for storable input they are the operations above (plain_of).  Every upload of every history of the run goes through
+   these programs (outcome, statement count, every table row compared with the implementation). *)
+(* a call that does not return normally - whatever was handed over, whatever fails, wherever - leaves the file as it was *)
+Theorem python_level_refusal_changes_nothing : forall po flt cf d r oc d' r' n,
+  with_conn flt cf (body_py po) d r = (oc, d', r', n) -> (forall a, oc <> OOk a) -> cf <> CAfterCommit -> d' = d.
+Proof. exact py_refused_unchanged. Qed.
+Print Assumptions python_level_refusal_changes_nothing.
+(* ... and for the wrapper AS FOUND IN THE SOURCE (Gen/DbShapeGen.v wc_source, regenerated on every run; Db/DbConn.v interprets Python's try
+   statement, the open transaction holding what the body wrote before it raised): nothing of a call the caller gets no result from reaches
+   the file.  A commit on an error path (a handler, `finally`) breaks this theorem. *)
+Theorem refused_call_changes_nothing_in_source_wrapper : forall flt cf (p : prog ret) d r oc d' r' n,
+  fst (with_conn_gen wc_source flt cf p d r) = Some (oc, d', r', n) -> (forall a, oc <> OOk a) -> cf <> CAfterCommit ->
+  d' = d /\ x_file (snd (with_conn_gen wc_source flt cf p d r)) = d'.
+Proof. exact source_wrapper_refused_unchanged. Qed.
+Print Assumptions refused_call_changes_nothing_in_source_wrapper.
+(* all or nothing under every fault that no try of the body swallows *)
+Theorem python_level_call_is_atomic : forall po d r flt cf,
+  (match flt with Some (k, e) => e <> EIntegrity \/ tryfree (body_py po) | None => True end) ->
+  db_of (with_conn flt cf (body_py po) d r) = d \/ db_of (with_conn flt cf (body_py po) d r) = db_of (run_pyop po d r).
+Proof. exact py_call_atomic. Qed.
+Print Assumptions python_level_call_is_atomic.
+(* the invariant of the tables survives every such call, under every fault *)
+Theorem python_level_call_preserves_well_formedness : forall po flt cf d r, wf d -> wf (DbInv.db_after (with_conn flt cf (body_py po) d r)).
+Proof. exact py_operation_preserves_wf. Qed.
+Print Assumptions python_level_call_preserves_well_formedness.
+(* the refusal nodes are reached after rows were written (not vacuous): a material upload refused at its 7th statement with the name row,
+   two type rows and one property row written; a PointIsotherm refused by the body after the isotherm row, a property and three data rows *)
+Example python_level_refusals_happen_after_writes :
+  run_pyop e_mat e_db (mkReg [] []) = (OOther (EExc K_Programming), e_db, mkReg [] [], 7%nat)
+  /\ names (mat (s_db (snd (run None (body_py e_mat) (mkSt e_db (mkReg [] []) 0))))) = [30; 31]
+  /\ length (props (mat (s_db (snd (run None (body_py e_mat) (mkSt e_db (mkReg [] []) 0)))))) = 1%nat
+  /\ run_pyop e_iso e_db (mkReg [] []) = (OOther (EExc K_Parsing), e_db, mkReg [] [], 6%nat)
+  /\ length (idata (s_db (snd (run None (body_py e_iso) (mkSt e_db (mkReg [] []) 0))))) = 3%nat
+  /\ plain_of e_mat = None /\ plain_of e_iso = None.
+Proof. exact py_refusal_witnesses. Qed.
+(* a wrapper that commits in `finally` stores the half-written isotherm although the caller gets the ParsingError *)
+Theorem commit_in_finally_half_commits_refuted :
+  match fst (with_conn_gen wc_commit_in_finally None CNone (body_py e_iso) e_db (mkReg [] [])) with
+  | Some (oc, d', _, _) => oc = OOther (EExc K_Parsing) /\ iso_ids d' = [100] /\ length (idata d') = 3%nat
+  | None => False end.
+Proof. exact commit_in_finally_half_commits. Qed.
+Print Assumptions commit_in_finally_half_commits_refuted.
+(* on storable input the programs with refusal nodes ARE the programs of Db/DbModel.v (program trees equal): the refinement theorems above
+   speak about what the harness executes for every upload *)
+Theorem storable_python_call_is_the_plain_operation : forall o : op,
+  body_py (match o with
+           | EntUp e n ps a w => PEntUp e n (inj_plist ps) a w
+           | TyUp t ty u ds w => PTyUp t ty (PV u) (PV ds) w
+           | IsoUp x am aa => PIsoUp (inj_iso x) am aa
+           | _ => POp o end) = body o.
+Proof. exact storable_pyop_is_plain_op. Qed.
+Print Assumptions storable_python_call_is_the_plain_operation.
